@@ -28,7 +28,7 @@ def nabs(x):
 
 MANIFEST = dict(
     technique='explicit-state enumeration of the transcription input tree x logit modes x confidence filter x baseline shapes, a page-structure lattice, and all short strings for the Arabic order conversion; real to_altoxml_string / from_altoxml_string / ArabicHelper vs split()-based reference',
-    text='Bounded exhaustive: every transcription of length <= 3 (quick) / 4 (thorough) over an 8-symbol alphabet (in-charset, out-of-charset, five kinds of white space) in 7 logit modes x 2 confidence filters x 3 baseline shapes (straight, slanted 4-point, one-pixel), and one level deeper in the two export branches (alignment / fallback); every page structure of 0-2 regions x 0-3 lines with blank/non-blank text and region boxes touching or not touching each page edge; Arabic lines up to length 4; every string up to length 6 / 7 over a 7-symbol mixed Arabic/Latin/digit/delimiter alphabet for the order conversion. Export must not raise, must parse, list every non-blank line once and in order with exactly the split() words (logical order on Arabic lines), write integer geometry, a print space equal to the bounding box of the blocks with margins tiling the page, WC in [0,1], drop only lines below the requested confidence, and re-import must return the same words. Added sub-sweeps: an eighth logit mode with exactly one frame per character, a one-pixel baseline, all ordered pairs / triples of mixed-script lines, lines of 499-2100 frames, pages of 12 blocks / 12 lines, export histories on one page object (logits attached or removed between exports), and a confidence-class clause (> 0.99 for one-hot-like, <= 0.5 for near-uniform or unalignable posteriors). Two more baseline shapes: one pixel long (empty crop grid; tested line first in its block) and right-to-left.',
+    text='Bounded exhaustive: every transcription of length <= 3 (quick) / 4 (thorough) over an 8-symbol alphabet (in-charset, out-of-charset, five kinds of white space) in 7 logit modes x 2 confidence filters x 3 baseline shapes (straight, slanted 4-point, one-pixel), and one level deeper in the two export branches (alignment / fallback); every page structure of 0-2 regions x 0-3 lines with blank/non-blank text and region boxes touching or not touching each page edge; Arabic lines up to length 4; every string up to length 6 / 7 over a 7-symbol mixed Arabic/Latin/digit/delimiter alphabet for the order conversion. Export must not raise, must parse, list every non-blank line once and in order with exactly the split() words (logical order on Arabic lines), write integer geometry, a print space equal to the bounding box of the blocks with margins tiling the page, WC in [0,1], drop only lines below the requested confidence, and re-import must return the same words. Added sub-sweeps: an eighth logit mode with exactly one frame per character, a one-pixel baseline, all ordered pairs / triples of mixed-script lines, lines of 499-2100 frames, pages of 12 blocks / 12 lines, export histories on one page object (logits attached or removed between exports), and a confidence-class clause (> 0.99 for one-hot-like, <= 0.5 for near-uniform or unalignable posteriors). Two more baseline shapes: one pixel long (empty crop grid; tested line first in its block) and right-to-left. Wave 10: export after get_quality() when the line was corrected by hand or recognised again; texts that are not in Unicode normal form C.',
     note='Posteriors are synthetic; strings longer than the bound and characters outside the alphabets are not explored.',
     ref='3/C06')
 
